@@ -254,7 +254,10 @@ def run_group(bu, g, extra_defs=(), label=None):
         if g.enforce:
             gi += ['--enforce-contract', g.enforce]
         present = set(bu.em.funcs) | set(bu.em.protos) | set(bu.em.extra_protos)
-        for r in g.replace:
+        # abstract functions of the unit (no body translated) are always replaced by their contracts
+        repl = list(g.replace) + [a for a in bu.unit.abstract if a not in g.replace and a != g.enforce
+                                  and bu.unit.contract_for(a, bu.cfg) is not None]
+        for r in repl:
             if r in present:       # functions compiled out in this configuration (e.g. ASSERT-only helpers) are skipped
                 gi += ['--replace-call-with-contract', r]
         if g.attrs.get('loops') == 'yes':
